@@ -58,6 +58,8 @@ class Ref:
             else:
                 self.defs[var] = (op, a)
         self._n = 0
+        self.dl_max1 = {v for v, (op, a) in self.defs.items()
+                        if op == "DelimitedList" and len(a) > 1 and isinstance(a[1], dict) and a[1].get("max") == 1}
         for var in list(self.defs):
             self.desugar(var)
         self._skips = {}
@@ -87,6 +89,10 @@ class Ref:
             op, a = self.defs[x]
             if op == "-":
                 raise Unsupported("error stop inside a stop_on / fail_on expression")
+            if x in self.dl_max1:
+                # DelimitedList(e, max=1) is And([e, And([])]); until streamline() removes the empty And it raises
+                # IndexError -> ParseException, so as an unstreamlined sentinel it never matches (same C12 finding)
+                raise Unsupported("DelimitedList(max=1) inside a stop_on / fail_on expression")
             for y in a:
                 if isinstance(y, str):
                     todo.append(y)
